@@ -45,12 +45,13 @@ const (
 	fForElse   = "C03-vfor-on-else-member"             // chosen v-else-if / v-else member carrying v-for renders nothing
 	fForIf     = "C03-vfor-on-if-member"               // falsy v-if member carrying v-for: following v-else-if (and its v-else) dropped
 	fForSkip   = "C03-vfor-member-after-chosen-branch" // v-else-if chosen; a later member with v-for runs as a loop of its own and lets the v-else render too
+	fForIfPre  = "C03-vfor-on-if-member-vpre-tail"     // truthy v-if member carrying v-for: a later member with v-pre is emitted too
 	fClassNil  = "C03-class-object-nil-adds-class"     // :class="{k: x}" adds k for nil / undefined x
 	fClassStr  = "C03-class-object-string-reparsed"    // :class="{k: x}" drops k for strings like "0", " "
 	fShowChain = "C03-vshow-on-chain-member-ignored"   // v-show on an element that also carries v-if / v-else(-if) is ignored
 )
 
-var allFindings = []string{fForElse, fForIf, fForSkip, fClassNil, fClassStr, fShowChain}
+var allFindings = []string{fForElse, fForIf, fForIfPre, fForSkip, fClassNil, fClassStr, fShowChain}
 
 func openFindings() map[string]bool {
 	f := kf.Load()
@@ -68,7 +69,11 @@ func render(tpl string, data map[string]any, entry string) (string, error) {
 	var err error
 	switch entry {
 	case "file":
-		fsys := memfs.FromMap(map[string]string{"page.vuego": tpl, "comp.vuego": componentSource})
+		files := map[string]string{"page.vuego": tpl, "comp.vuego": componentSource}
+		for name, src := range slotComponents {
+			files[name] = src
+		}
+		fsys := memfs.FromMap(files)
 		err = vuego.NewFS(fsys).Load("page.vuego").Fill(data).Render(context.Background(), &b)
 	default:
 		err = vuego.New().Fill(data).RenderString(context.Background(), &b, tpl)
@@ -131,6 +136,12 @@ func classify(c Case) (bool, []string) {
 	add(st.sibBefore, "sibling-before")
 	add(st.sibAfter, "sibling-after")
 	add(st.loopEmpty, "empty-loop")
+	add(st.slotted > 0, "slot-content-used-k-times")
+	add(st.slotChain, "chain-in-slot-content")
+	add(st.slotTwice, "slot-used-twice-per-item")
+	add(st.preMember, "member-with-v-pre")
+	add(st.onceMember, "member-with-v-once")
+	add(st.laterDeco, "unchosen-later-member-with-v-pre/v-once/v-for")
 	add(st.includes > 0, fmt.Sprintf("include(props<=%d)", st.maxProps))
 	add(st.probes > 0, "probe(v-show,:attr,:class)")
 	add(st.propCond, "cond-names-undefined-prop")
@@ -158,7 +169,7 @@ func replay(kind string, raw json.RawMessage) error {
 	switch kind {
 	case "table", "value":
 		return run.Decode(raw, checkTruth)
-	default: // "shape", "scope", "nest"
+	default: // "shape", "slot", "scope", "nest"
 		return run.Decode(raw, check)
 	}
 }
@@ -219,6 +230,16 @@ func TestProp(t *testing.T) {
 			rec.Excluded(fForSkip)
 			return true
 		}
+		if open[fForIfPre] && len(st.forIfPre) > 0 {
+			rec.Excluded(fForIfPre)
+			return true
+		}
+		if len(st.onceRepeat) > 0 {
+			// the v-once member is chosen in more than one loop iteration: what happens the second
+			// time is C16's subject, not asserted here
+			rec.Count("not-generated:v-once-member-chosen-repeatedly(C16)", 1)
+			return true
+		}
 		nt, cls := classify(c)
 		if !run.Each(rec, "shape", c, nt, cls, check) {
 			failed++
@@ -230,7 +251,33 @@ func TestProp(t *testing.T) {
 		if !run.Thorough() {
 			bound = "0..2 v-else-if in the full product, 3 v-else-if with siblings on both sides only and without the adjacent-chain / orphan products"
 		}
-		rec.Exhaustive(fmt.Sprintf("chains: v-if + %s + optional v-else x all 2^n truth assignments x 4 separators x 4 sibling layouts x {top, div, v-for body} x {plain, all-template, one template member, one member with v-for, one negated condition}, plus two adjacent chains and orphan v-else / v-else-if in 6 positions (%d cases)", bound, n))
+		rec.Exhaustive(fmt.Sprintf("chains: v-if + %s + optional v-else x all 2^n truth assignments x 4 separators x 4 sibling layouts x {top, div, v-for body} x {plain, all-template, one template member, one member with v-for, one later member with v-pre / v-once, one negated condition}, plus two adjacent chains and orphan v-else / v-else-if in 6 positions (%d cases)", bound, n))
+	}
+
+	// ---- chains in slot content that a component uses k times with per-use truth assignments
+	nl, lfailed := 0, 0
+	enumSlot(func(c Case) bool {
+		nl++
+		if nl%shards != shard {
+			return true
+		}
+		_, st := expect(&c)
+		if open[fForIf] && len(st.forIfElif) > 0 {
+			rec.Excluded(fForIf)
+			return true
+		}
+		if open[fForIfPre] && len(st.forIfPre) > 0 {
+			rec.Excluded(fForIfPre)
+			return true
+		}
+		nt, cls := classify(c)
+		if !run.Each(rec, "slot", c, nt, cls, check) {
+			lfailed++
+		}
+		return lfailed < 5
+	})
+	if lfailed == 0 {
+		rec.Exhaustive(fmt.Sprintf("slot content: chain (0..2 v-else-if, optional v-else; plain, one member with v-for, one template member, one later member with v-pre) supplied to a component that uses its slot once / twice per item of a list holding all 2^n assignments ascending / descending, conditions on the scoped slot prop (%d cases)", nl))
 	}
 
 	// ---- stale-scope placements: chains / probes in a loop body that follows an include with 9..12 props
